@@ -168,7 +168,7 @@ func vfAnswered(g *vfGW, reqs []vfReqTrack) []vfXViolation {
 		if !ok {
 			key := "C14:request-unanswered:" + rq.Kind + "@" + vfCurScenario
 			if rq.Kind == "pub" || rq.Kind == "set" {
-				key = "C13:request-unanswered-in-race:" + rq.Kind // C14 names only subscribe, leave and delete requests
+				key = "C13:request-unanswered-in-race:" + rq.Kind + "@" + vfCurScenario // C14 names only subscribe, leave and delete requests
 			}
 			out = append(out, vfXViolation{Key: key, What: fmt.Sprintf("{%s} %s by %s on %s was never answered; the session received: %v", rq.Kind, rq.ID, rq.Client, vfTopicKind(rq.Topic), vfFramesStrings(c.frames[max(0, len(c.frames)-6):]))})
 		}
